@@ -1,6 +1,6 @@
 """pyvc.lib_calls -- method calls on containers, builtins, stdlib functions, constructors."""
 from __future__ import annotations
-import ast
+import ast, re
 import z3
 from .core import *
 from .engine import Unsupported
@@ -344,6 +344,19 @@ class LibCalls:
             return [(st, Val(BOOL, self.isinstance_z(args[0], args[1], st, node)))]
         if name == "int":
             v = args[0]
+            if v.t == PYVAL:
+                out = []
+                for s, isint in e.split(st, self.pv_kind(v.z) == 0):
+                    if isint:
+                        out.append((s, Val(INT, self.pv_int(v.z))))
+                    else:
+                        for s2, isfl in e.split(s, self.pv_kind(v.z) == 1):
+                            if isfl:
+                                out.extend(self.call_builtin("int", [Val(FLOAT, self.pv_float(v.z))], {}, s2, node))
+                            else:
+                                self.use("int(x) of a non-number: TypeError / ValueError")
+                                out.append((s2, Exc("TypeError", "int() argument", node.lineno)))
+                return out
             if v.t[0] in ("int", "bool"):
                 return [(st, e.coerce(v, INT))]
             if v.t[0] == "float":
@@ -413,6 +426,8 @@ class LibCalls:
             return [(st, Val(FLOAT, z))]
         if name in ("max", "min") and len(args) == 1 and args[0].t[0] == "carray":
             return self.max_min(name, e.mk_list(("list", args[0].t[1]), z3.IntVal(args[0].t[2]), args[0].z), st, node)
+        if name in ("max", "min") and len(args) == 1 and args[0].t[0] == "list" and args[0].t[1] == PYVAL:
+            return self.max_min_pyval(name, args[0], st, node)
         if name in ("max", "min") and len(args) == 1 and args[0].t[0] == "list":
             return self.max_min(name, args[0], st, node)
         if name in ("any", "all") and len(args) == 1 and args[0].t[0] == "list":
@@ -425,6 +440,35 @@ class LibCalls:
             raise Unsupported("max over a generator", node, e.path)
         if name == "abs" and args[0].t[0] == "int":
             return [(st, Val(INT, z3.If(args[0].z < 0, -args[0].z, args[0].z)))]
+        if name == "abs" and args[0].t[0] == "float":
+            return [(st, Val(FLOAT, z3.fpAbs(args[0].z)))]
+        if name == "abs" and args[0].t == PYVAL:
+            # abs() of an arbitrary python value: |int|, |float|; for other objects either TypeError (str, None, ...) or - complex numbers, objects with
+            # __abs__ - some non-negative float (a function of the value)
+            self.use("abs(x): |x| for ints and floats; for other objects TypeError, or a non-negative float when the object defines __abs__ (complex numbers)")
+            v = args[0]
+            PV = e.S.sort(PYVAL)
+            has_abs = z3.Function("pv_has_abs", PV, z3.BoolSort())(v.z)
+            mag = z3.Function("pv_abs_other", PV, e.S.Float)(v.z)
+            out = []
+            for s2, isint in e.split(st, self.pv_kind(v.z) == 0):
+                if isint:
+                    r = e.fresh(PYVAL, "abs")
+                    iz = self.pv_int(v.z)
+                    s2.assume(z3.And(self.pv_kind(r.z) == 0, self.pv_int(r.z) == z3.If(iz < 0, -iz, iz)))
+                    out.append((s2, r))
+                    continue
+                for s3, isfl in e.split(s2, self.pv_kind(v.z) == 1):
+                    if isfl:
+                        out.append((s3, Val(FLOAT, z3.fpAbs(self.pv_float(v.z)))))
+                        continue
+                    for s4, ok in e.split(s3, has_abs):
+                        if ok:
+                            s4.assume(z3.And(z3.Not(z3.fpIsNaN(mag)), z3.Not(z3.fpIsNegative(mag))))
+                            out.append((s4, Val(FLOAT, mag)))
+                        else:
+                            out.append((s4, Exc("TypeError", "bad operand type for abs()", node.lineno)))
+            return out
         if name == "id":
             return [(st, e.fresh(INT, "id"))]
         if name == "type":
@@ -463,6 +507,34 @@ class LibCalls:
             out.append((s, r))
         return out
 
+    def max_min_pyval(self, name, L: Val, st, node):
+        """max / min of a list of python values: ValueError if empty; TypeError if two elements cannot be compared (a non-number among two or more);
+        otherwise an element of the list whose numeric value bounds all the others (ints and floats compare by value; NaN is excluded by assumption)"""
+        e = self.e
+        self.use("builtin max/min over python numbers: the result is an element of the list whose value bounds every element (NaN-free); a non-number among >= 2 elements raises TypeError")
+        n, at = e.list_len(L), e.list_at(L)
+        out = []
+        for s, empty in e.split(st, n <= 0):
+            if empty:
+                out.append((s, Exc("ValueError", f"{name}() arg is an empty sequence", node.lineno)))
+                continue
+            i = z3.Int(fresh_name("i"))
+            other = z3.Exists([i], z3.And(0 <= i, i < n, self.pv_kind(z3.Select(at, i)) == 2))
+            for s2, bad in e.split(s, z3.And(n >= 2, other)):
+                if bad:
+                    out.append((s2, Exc("TypeError", f"'<' not supported between instances", node.lineno)))
+                    continue
+                r = e.fresh(PYVAL, name)
+                j = z3.Int(fresh_name("j"))
+                k = z3.Int(fresh_name("k"))
+                s2.assume(z3.And(0 <= j, j < n, z3.Select(at, j) == r.z))
+                if name == "max":
+                    s2.assume(z3.ForAll([k], z3.Implies(z3.And(0 <= k, k < n, self.pv_kind(z3.Select(at, k)) != 2, self.pv_kind(r.z) != 2), self.pv_num(z3.Select(at, k)) <= self.pv_num(r.z))))
+                else:
+                    s2.assume(z3.ForAll([k], z3.Implies(z3.And(0 <= k, k < n, self.pv_kind(z3.Select(at, k)) != 2, self.pv_kind(r.z) != 2), self.pv_num(z3.Select(at, k)) >= self.pv_num(r.z))))
+                out.append((s2, r))
+        return out
+
     def isinstance_z(self, v: Val, cls: Val, st, node):
         e = self.e
         names = []
@@ -484,6 +556,19 @@ class LibCalls:
             n = n.split(".")[-1]
             if k == "carray":
                 res.append(z3.BoolVal(n in ("Array", "object", "Iterable", "Sequence")))
+                continue
+            if v.t == PYVAL:
+                self.use("a python value of unknown type is an int (bool included), a float, or something else")
+                if n in ("int",):
+                    res.append(self.pv_kind(v.z) == 0)
+                elif n == "float":
+                    res.append(self.pv_kind(v.z) == 1)
+                elif n == "object":
+                    res.append(z3.BoolVal(True))
+                elif n == "bool":
+                    res.append(z3.And(self.pv_kind(v.z) == 0, z3.Function("pv_isbool", e.S.sort(PYVAL), z3.BoolSort())(v.z)))
+                else:
+                    res.append(z3.And(self.pv_kind(v.z) == 2, z3.Function("pv_isa_" + re.sub(r"\W", "_", n), e.S.sort(PYVAL), z3.BoolSort())(v.z)))
                 continue
             if k == "int":
                 res.append(z3.BoolVal(n in ("int", "object")))
@@ -854,6 +939,22 @@ class LibCalls:
             # self._ctype(value) for the float validators: ctypes.c_float / c_double conversion
             self.use("ctypes.c_float(x) / c_double(x): TypeError unless x is int or float; .value is x rounded to the type (RNE); huge ints (OverflowError) excluded by precondition")
             v = args[0]
+            if v.t == PYVAL:
+                out = []
+                for s2, num in e.split(st, self.pv_kind(v.z) != 2):
+                    if not num:
+                        out.append((s2, Exc("TypeError", "ctypes float conversion of a non-number", getattr(node, "lineno", 0))))
+                        continue
+                    f = z3.If(self.pv_kind(v.z) == 0, z3.fpToFP(z3.RNE(), z3.ToReal(self.pv_int(v.z)), e.S.Float), self.pv_float(v.z))
+                    if cm == "float32":
+                        f = z3.fpToFP(z3.RNE(), z3.fpToFP(z3.RNE(), f, z3.Float32()), e.S.Float)
+                    # IEEE-754 fact spared to the solver: an integer of magnitude <= 2^100 converts to a finite binary32 / binary64 value (2^100 < FLT_MAX)
+                    iz = self.pv_int(v.z)
+                    s2.assume(z3.Implies(z3.And(self.pv_kind(v.z) == 0, -(2 ** 100) <= iz, iz <= 2 ** 100), z3.And(z3.Not(z3.fpIsInf(f)), z3.Not(z3.fpIsNaN(f)))))
+                    box = e.new_object(s2, "CFloatBox", "cbox")
+                    e.store_field(s2, box, "value", Val(FLOAT, f))
+                    out.append((s2, box))
+                return out
             if v.t[0] not in ("int", "bool", "float"):
                 return [(st, Exc("TypeError", "ctypes float conversion of a non-number", getattr(node, "lineno", 0)))]
             f = e.coerce(v, FLOAT).z
